@@ -1492,3 +1492,119 @@ Theorem unconfirmed_never_refunded le sc t b h t' k :
   Inv t -> r_block_connected le sc t b h = Ok tt t' -> In k (db_trks t) -> t_conf k = false ->
   ~ In (trk_uuid k) (completed_list (keys_of (ib_data b)) h t).
 Proof. intros HI _ Hk Hc. apply never_completes_unconfirmed; assumption. Qed.
+
+(* ------------------------------------------------------------------------------------------ *)
+(* preservation through the watcher's procedures (no refund, no status update): the induction
+   done once, with the provenance of every inserted tracker's confirmation height *)
+
+Definition same_but_watcher (t t' : tower) : Prop :=
+  cfg t = cfg t' /\ gk_users t = gk_users t' /\ gk_height t = gk_height t' /\ db_users t = db_users t' /\
+  db_apps t = db_apps t' /\ db_trks t = db_trks t' /\ r_index t = r_index t' /\ car_height t = car_height t' /\
+  car_memo t = car_memo t' /\ reorged t = reorged t'.
+
+(* a tracker inserted as ConfirmedIn h got h from the responder's index (or from a memoized
+   ConfirmedIn answer of the carrier, which never exists: memo_ok below) *)
+Definition trk_provenance (t : tower) (k : trk) : Prop :=
+  t_conf k = true ->
+  (exists bh z, ti_get_height (r_index t) bh = Some z /\ t_height k = Z.to_N z) \/
+  (exists x, aget (car_memo t) x = Some (ConfirmedIn (t_height k))).
+
+Record StableW (P : tower -> Prop) : Prop := {
+  sw_frame : forall t t', same_but_watcher t t' -> P t -> P t';
+  sw_send : forall sc t x, P t -> P (snd (send_transaction sc t x));
+  sw_delete : forall t us, P t -> P (db_delete_apps t us);
+  sw_insert_trk : forall t k, P t -> find_trk (db_trks t) (trk_uuid k) = None ->
+                              (exists a, find_app (db_apps t) (trk_uuid k) = Some a) ->
+                              trk_provenance t k -> P (p_insert_trk t k)
+}.
+
+Lemma send_confirmed_memo sc t x hh t2 :
+  send_transaction sc t x = (ConfirmedIn hh, t2) -> aget (car_memo t2) x = Some (ConfirmedIn hh).
+Proof.
+  intros E. destruct (send_spec sc t x) as [m [l [Es [_ Hm]]]]. rewrite Es in E. inversion E. subst t2.
+  unfold with_carrier. cbn [car_memo set_rpc_log set_car_memo]. congruence.
+Qed.
+
+Section W.
+  Context (P : tower -> Prop) (HW : StableW P).
+
+  Lemma in_mempool_presW sc t tx : P t -> P (snd (in_mempool sc t tx)).
+  Proof. intros H. unfold in_mempool. cbn [snd]. eapply (sw_frame P HW); [|exact H]. repeat split. Qed.
+
+  Lemma add_tracker_presW t uuid d p s :
+    P t ->
+    (forall h, s = ConfirmedIn h ->
+       (exists bh z, ti_get_height (r_index t) bh = Some z /\ h = Z.to_N z) \/
+       (exists x, aget (car_memo t) x = Some (ConfirmedIn h))) ->
+    P (r_add_tracker t uuid d p s).
+  Proof.
+    intros H Hprov. unfold r_add_tracker.
+    destruct s as [h|h| |c]; try exact H;
+      destruct (find_trk (db_trks t) uuid) eqn:Et; try exact H;
+      destruct (find_app (db_apps t) uuid) eqn:Ea; try exact H;
+      (apply (sw_insert_trk P HW); [exact H|destruct uuid; exact Et|destruct uuid; eauto|]).
+    - intros _. cbn [t_height]. apply Hprov. reflexivity.
+    - intros Hc. discriminate.
+  Qed.
+
+  Lemma handle_breach_presW sc t uuid d p : P t -> pres P (r_handle_breach sc t uuid d p).
+  Proof.
+    intros H. unfold r_handle_breach.
+    destruct (ti_get (r_index t) p) as [bh|].
+    - destruct (ti_get_height (r_index t) bh) as [z|] eqn:Ez; cbn [bind pres]; [|exact I].
+      cbn [status_accepted]. apply add_tracker_presW; [exact H|].
+      intros h Eh. inversion Eh. left. eauto.
+    - pose proof (in_mempool_presW sc t p H) as H1.
+      destruct (in_mempool sc t p) as [inm t1]. cbn [snd] in H1.
+      destruct inm.
+      + cbn [bind pres status_accepted]. apply add_tracker_presW; [exact H1|]. intros h Eh. discriminate.
+      + pose proof (sw_send P HW sc t1 p H1) as H2.
+        destruct (send_transaction sc t1 p) as [s t2] eqn:Es. cbn [snd] in H2. cbn [bind pres].
+        destruct (status_accepted s); [|exact H2].
+        apply add_tracker_presW; [exact H2|]. intros h Eh. subst s. right. exists p.
+        eapply send_confirmed_memo. exact Es.
+  Qed.
+
+  Lemma breach_uuid_loop_presW sc d us : forall t inv, P t -> pres P (breach_uuid_loop sc d us t inv).
+  Proof.
+    induction us as [|uuid us IH]; intros t inv H; cbn [breach_uuid_loop]; [exact H|].
+    destruct (find_app (db_apps t) uuid) as [a|]; [|exact I].
+    destruct (decrypt (a_blob a) d) as [p|]; [|apply IH; exact H].
+    apply pres_bind; [apply handle_breach_presW; exact H|].
+    intros s t1 H1. apply IH. exact H1.
+  Qed.
+
+  Lemma breach_loop_presW sc ds : forall t inv, P t -> pres P (breach_loop sc ds t inv).
+  Proof.
+    induction ds as [|d ds IH]; intros t inv H; cbn [breach_loop]; [exact H|].
+    apply pres_bind; [apply breach_uuid_loop_presW; exact H|].
+    intros inv' t1 H1. apply IH. exact H1.
+  Qed.
+
+  Lemma w_block_connected_presW sc t b h : P t -> pres P (w_block_connected sc t b h).
+  Proof.
+    intros H. unfold w_block_connected.
+    destruct (ti_update (w_cache t) b) as [c|]; [|exact I].
+    apply pres_bind; [apply breach_loop_presW; eapply (sw_frame P HW); [|exact H]; repeat split|].
+    intros inv t2 H2. apply pres_bind.
+    - destruct inv; [exact H2|]. unfold gk_delete_appointments. cbn [pres]. apply (sw_delete P HW). exact H2.
+    - intros _ t3 H3. cbn [pres]. eapply (sw_frame P HW); [|exact H3]. repeat split.
+  Qed.
+End W.
+
+(* the watcher never touches the users: balances move only through the responder's refunds *)
+Lemma users_stableW (G D : list (N * uinfo)) : StableW (fun t => gk_users t = G /\ db_users t = D).
+Proof.
+  constructor.
+  - intros t t' [_ [Hg [_ [Hd _]]]] [H1 H2]. split; congruence.
+  - intros sc t x H. destruct (send_spec sc t x) as [m [l [Es _]]]. rewrite Es. exact H.
+  - intros t us H. exact H.
+  - intros t k H _ _ _. exact H.
+Qed.
+
+Lemma w_block_connected_users sc t b h t' :
+  w_block_connected sc t b h = Ok tt t' -> gk_users t' = gk_users t /\ db_users t' = db_users t.
+Proof.
+  intros E. pose proof (w_block_connected_presW _ (users_stableW (gk_users t) (db_users t)) sc t b h (conj eq_refl eq_refl)) as H.
+  rewrite E in H. exact H.
+Qed.
